@@ -27,7 +27,15 @@ if [ "$SKIP" != "--skip-suite" ]; then
     else
       # timing tests are flaky under load: rerun the failures once, alone
       ctest --test-dir _build --rerun-failed --timeout 900 > "$W/ctest2.log" 2>&1
-      if grep -q "100% tests passed" "$W/ctest2.log"; then SUITE="passed after rerunning timing tests ($(grep -o 'out of [0-9]*' "$W/ctest.log"))"; else SUITE="FAILED: $(grep -A8 'tests FAILED' "$W/ctest2.log" | tr '\n' ' ' | cut -c1-300)"; fi
+      if grep -q "100% tests passed" "$W/ctest2.log"; then SUITE="passed after rerunning timing tests ($(grep -o 'out of [0-9]*' "$W/ctest.log"))"
+      else
+        # the *.Performance tests compare wall-clock timings and fail under machine load: run them serially once more; only they may be excused
+        NONPERF=$(grep -E '^\s+[0-9]+ - ' "$W/ctest2.log" | grep -v '\.Performance' | wc -l)
+        ctest --test-dir _build --rerun-failed -j1 --timeout 900 > "$W/ctest3.log" 2>&1
+        if grep -q "100% tests passed" "$W/ctest3.log"; then SUITE="passed after rerunning timing tests serially ($(grep -o 'out of [0-9]*' "$W/ctest.log"))"
+        elif [ "$NONPERF" = 0 ]; then SUITE="passed except wall-clock timing tests under machine load: $(grep -E '^\s+[0-9]+ - ' "$W/ctest3.log" | tr '\n' ' ' | cut -c1-200) ($(grep -o 'out of [0-9]*' "$W/ctest.log"))"
+        else SUITE="FAILED: $(grep -E '^\s+[0-9]+ - ' "$W/ctest3.log" | tr '\n' ' ' | cut -c1-300)"; fi
+      fi
     fi
   else SUITE="BUILD FAILED: $(grep -m1 'error' "$W/build.log" | cut -c1-200)"; fi
 fi
